@@ -310,8 +310,3 @@ func RunProperty(cfg *PropConfig, root string, opts RunOpts) (*PropRun, error) {
 	}
 	return run, nil
 }
-
-func cmdCheck(args []string) int {
-	fmt.Println("not implemented yet")
-	return 2
-}
